@@ -1054,12 +1054,15 @@ theorem isReady_ahead (r a : Int) :
     | rfl
     | (simp only [Bool.false_eq_true, if_false, if_true, gt_iff_lt, ge_iff_le, decide_eq_decide]; omega)
 
+/-- (the token shape of the suspend handshake has one more call in the offline branch: `isSuspend.Store` after the receive) -/
 theorem isReady_calls : C08.isReadyCalls =
-    ["state.Load", "stateMgr.GetLiveNode", "isSuspend.CompareAndSwap", "state.Store", "r.IsReady", "r.closeStream",
+    ["state.Load", "stateMgr.GetLiveNode", "isSuspend.CompareAndSwap", "state.Store"] ++
+    (if C08.suspendChanBuffered then ["isSuspend.Store"] else []) ++
+    ["r.IsReady", "r.closeStream",
      "state.Store", "cliFct.CreateReplicaServiceClient", "state.Store", "state.Store", "r.getLastAckIdxFromReplica",
      "state.Store", "r.ReplicaIndex", "state.Store", "r.AppendIndex", "r.AckIndex", "state.Store", "replicaCli.Reset",
      "state.Store", "r.ResetReplicaIndex", "state.Store", "r.ResetAppendIndex", "state.Store", "r.ResetReplicaIndex",
-     "r.SetAckIndex", "r.ReplicaIndex", "state.Store", "state.Store"] := rfl
+     "r.SetAckIndex", "r.ReplicaIndex", "state.Store", "state.Store"] := by decide
 
 /-- fanOutQueue.Sync: nothing without a registered group; else the minimum over the registered
 groups starting from appended, applied when ≥ 0 -/
